@@ -12,6 +12,7 @@ import (
 	"strconv"
 	"strings"
 	"sync"
+	"sync/atomic"
 	"time"
 )
 
@@ -302,6 +303,7 @@ func Current(c any) {
 	if p == "" {
 		return
 	}
+	beat()
 	b, err := json.Marshal(c)
 	if err != nil {
 		return
@@ -321,3 +323,33 @@ func Short(v any) string {
 	}
 	return strings.ReplaceAll(s, "\n", " ")
 }
+
+// ---------------------------------------------------------------- stall watchdog
+
+var (
+	lastBeat  atomic.Int64
+	watchOnce sync.Once
+)
+
+// beat marks progress (called from Current). The first call starts a watchdog goroutine: if no case starts for
+// StallSeconds of REAL time the process cannot be making progress (typically a goroutine of the code under test
+// blocked on a mutex inside a bubble, which freezes virtual time for good); the watchdog then prints
+// "VERIF-STALL" and exits with status 3 so that the driver can report the case in flight. The limit is two
+// orders of magnitude above the slowest case of any harness that uses Current.
+func beat() {
+	lastBeat.Store(time.Now().UnixNano())
+	watchOnce.Do(func() {
+		go func() {
+			for {
+				time.Sleep(5 * time.Second)
+				if time.Since(time.Unix(0, lastBeat.Load())) > StallSeconds*time.Second {
+					fmt.Fprintln(os.Stderr, "VERIF-STALL: no case finished for", StallSeconds, "seconds of real time")
+					os.Exit(3)
+				}
+			}
+		}()
+	})
+}
+
+// StallSeconds is the real-time no-progress limit of the watchdog.
+var StallSeconds time.Duration = 180
